@@ -57,6 +57,7 @@ def run_events(events, cfg, known, upto=None, collect=None, owners=None):
     from .world import World, Violation, reset_process_state
     reset_process_state()
     w = World(cfg, known)
+    w.owners = owners
     viol = None
     try:
         for i, ev in enumerate(events):
@@ -115,6 +116,7 @@ def run_seed(seed, profile, tier, known, scratch, owners=None):
     cfg['scratch'] = scratch
     reset_process_state()
     w = World(cfg, known)
+    w.owners = owners
     gen = Gen(rng, cfg)
     events = []
     viol = None
